@@ -311,6 +311,21 @@ func (v *UnixVolume) WriteBlock(ctx context.Context, loc string, rdr io.Reader) 
 		v.os.Remove(tmpfile.Name())
 		return err
 	}
+	// If a copy (e.g., a corrupt one) already exists at bpath,
+	// hold its file lock while replacing it. Otherwise a
+	// concurrent Trash() that has already examined the old copy
+	// could go on to trash the new one.
+	if f, err := v.os.OpenFile(bpath, os.O_RDWR|os.O_APPEND, 0644); err == nil {
+		defer f.Close()
+		if err := v.lockfile(f); err != nil {
+			v.os.Remove(tmpfile.Name())
+			return err
+		}
+		defer v.unlockfile(f)
+	} else if !os.IsNotExist(err) {
+		v.os.Remove(tmpfile.Name())
+		return err
+	}
 	if err := v.os.Rename(tmpfile.Name(), bpath); err != nil {
 		err = fmt.Errorf("error renaming %s to %s: %s", tmpfile.Name(), bpath, err)
 		v.os.Remove(tmpfile.Name())
